@@ -7,6 +7,15 @@ func (c *Ctx) scopeData() map[*ssa.Function]bool {
 	return c.reachableOutsideRecover(c.entryData())
 }
 
+// scopeAll: every source function of the SDK module.
+func (c *Ctx) scopeAll() map[*ssa.Function]bool {
+	out := map[*ssa.Function]bool{}
+	for _, f := range c.M.Funcs {
+		out[f] = true
+	}
+	return out
+}
+
 func init() {
 	register(&PropSpec{
 		ID:          "C04",
@@ -14,6 +23,8 @@ func init() {
 		Assumptions: []string{"A1-A4 (DESIGN §3.0.5)"},
 		Rules: []func(*Ctx){
 			func(c *Ctx) { c.ruleAssert("R-ASSERT", c.scopeData()) },
+			func(c *Ctx) { c.ruleNilGuard("R-NILGUARD", c.scopeData()) },
+			func(c *Ctx) { c.ruleMapNil("R-MAPNIL", c.scopeAll()) },
 		},
 	})
 }
